@@ -200,6 +200,11 @@ impl<'a> R for lalrpop_util::lexer::Token<'a> {
         format!("{:?}", self.1)
     }
 }
+impl<T> R for std::marker::PhantomData<T> {
+    fn r(&self) -> String {
+        "Ph".to_string()
+    }
+}
 impl<T: R> R for Box<T> {
     fn r(&self) -> String {
         (**self).r()
@@ -501,14 +506,14 @@ pub fn multi<P: Sync>(m: &Multi, shared: &P, one: &(dyn Fn(&P, &Query) -> String
 
 /// extern-lexer parser call
 macro_rules! run_toks {
-    ($q:expr, $parser:path, $loc:ty) => {{
+    ($q:expr, $parser:path, $loc:ty $(, $extra:expr)*) => {{
         let q: &$crate::rt::Query = $q;
         let one = |p: &$parser, q: &$crate::rt::Query| -> String {
             let cx = $crate::rt::Cx::new(q.budget);
             let pulls = std::cell::Cell::new(0u32);
             let res = std::panic::catch_unwind(std::panic::AssertUnwindSafe(|| {
                 let it = $crate::rt::TokIter::<$loc>::new(q, &pulls, &cx);
-                p.parse(&cx, it)
+                p.parse(&cx, $($extra,)* it)
             }));
             $crate::rt::finish(res, &cx, pulls.get())
         };
@@ -524,11 +529,11 @@ macro_rules! run_toks {
 }
 /// built-in-lexer parser call
 macro_rules! run_str {
-    ($q:expr, $parser:path) => {{
+    ($q:expr, $parser:path $(, $extra:expr)*) => {{
         let q: &$crate::rt::Query = $q;
         let one = |p: &$parser, q: &$crate::rt::Query| -> String {
             let cx = $crate::rt::Cx::new(q.budget);
-            let res = std::panic::catch_unwind(std::panic::AssertUnwindSafe(|| p.parse(&cx, &q.text)));
+            let res = std::panic::catch_unwind(std::panic::AssertUnwindSafe(|| p.parse(&cx, $($extra,)* &q.text)));
             $crate::rt::finish(res, &cx, 0)
         };
         match &q.multi {
